@@ -85,6 +85,35 @@ func gen(t *rapid.T) Case {
 		}
 	}
 	shapes = append(shapes, tweakTree(t, &p)...)
+	// sixth seed batch: one fully qualified name declared by two files (the same class in two modules of a
+	// multi-module build): each declaration has its own entry
+	if rapid.IntRange(0, 5).Draw(t, "twinDeclaration") == 5 {
+		var mains []int
+		for i, u := range p.Units {
+			if u.Role == "main" && !longFeature(u) {
+				mains = append(mains, i)
+			}
+		}
+		if len(mains) > 0 {
+			i := mains[rapid.IntRange(0, len(mains)-1).Draw(t, "twinUnit")]
+			dir := rapid.SampledFrom([]string{"twin-module/", "zz_copy/", "a0/"}).Draw(t, "twinDir")
+			u := p.Units[i]
+			u.Path = dir + u.Path
+			text := ""
+			for _, f := range p.Files {
+				if f.Path == p.Units[i].Path {
+					text = f.Text
+				}
+			}
+			if text != "" {
+				// Files holds the Java files first, in the order of Units
+				n := len(p.Units)
+				p.Files = append(p.Files[:n], append([]jgen.File{{Path: u.Path, Text: text}}, p.Files[n:]...)...)
+				p.Units = append(p.Units, u)
+				shapes = append(shapes, "one_qualified_name_declared_by_two_files")
+			}
+		}
+	}
 	// some files end their lines with CR LF
 	for i := range p.Files {
 		if strings.HasSuffix(p.Files[i].Path, ".java") && rapid.IntRange(0, 7).Draw(t, "crlf") == 0 {
@@ -190,6 +219,12 @@ func compare(model []core_domain.CodeDataStruct, p jgen.Project, dir string, pas
 		byKey[k] = append(byKey[k], ds)
 	}
 	expected := map[string]bool{}
+	declaredBy := map[string]int{}
+	for _, u := range p.Units {
+		if u.Role == "main" {
+			declaredBy[u.FullName()]++
+		}
+	}
 	for _, u := range p.Units {
 		if u.Role != "main" {
 			continue
@@ -197,10 +232,22 @@ func compare(model []core_domain.CodeDataStruct, p jgen.Project, dir string, pas
 		k := u.FullName()
 		expected[k] = true
 		got := byKey[k]
-		if len(got) != 1 {
-			return fmt.Sprintf("%s pass: type %s declared in %s has %d entries in the model, want exactly 1", pass, k, u.Path, len(got))
+		if len(got) != declaredBy[k] {
+			return fmt.Sprintf("%s pass: type %s declared in %s (and in %d files in all) has %d entries in the model, want exactly one per declaration", pass, k, u.Path, declaredBy[k], len(got))
 		}
 		ds := got[0]
+		if declaredBy[k] > 1 {
+			// the declarations of one name carry the same text here; the full pass tells them apart by their path
+			found := !full
+			for _, g := range got {
+				if full && filepath.Clean(g.FilePath) == filepath.Join(dir, filepath.FromSlash(u.Path)) {
+					ds, found = g, true
+				}
+			}
+			if !found {
+				return fmt.Sprintf("%s pass: none of the %d entries of type %s has the source path of its declaration in %s", pass, len(got), k, u.Path)
+			}
+		}
 		if ds.Type != u.Kind {
 			return fmt.Sprintf("%s pass: type %s has kind %q, want %q", pass, k, ds.Type, u.Kind)
 		}
